@@ -58,7 +58,7 @@ ASSUMPTIONS = ['one engine process: each entry point is one atomic transaction (
 def _sizes(ctx):
     # per worker chunk (14 chunks)
     if ctx.thorough():
-        return {'n_resolve': 15000, 'n_schedule': 8000, 'n_tree': 1100}
+        return {'n_resolve': 15000, 'n_schedule': 8000, 'n_tree': 800}
     return {'n_resolve': 1500, 'n_schedule': 1000, 'n_tree': 36}
 
 
